@@ -1,5 +1,6 @@
 import BSModel.Proofs.ParseOnlyCor
 import BSModel.Model.Adapter
+import BSModel.Proofs.StrainerParse
 /-! # C16 — `parse_only` keeps exactly the outermost matching elements
 
 Property theorems only.  `fFlush`/`fStep`/`fRun`/`fBuild` (Model/ParseOnly.lean) are C03's documented fold with
@@ -238,5 +239,105 @@ theorem dropped_context_witness :
   have h2 := congrArg Adapter.codeL h
   revert h2
   decide
+
+end BS.Props.C16
+
+/-! ## the filter itself: what the parser asks before a tag exists = what a search asks of the finished tag
+
+`Filt.tag`/`Filt.str` above are arbitrary predicates. For a real `SoupStrainer` they are `allow_tag_creation` (asked with the raw
+attribute strings before the `Tag` exists) and `allow_string_creation`; "the elements of the full parse that the same filter matches"
+are those `matches_tag` accepts (the rule model is C10's, `Model/Search.lean`). -/
+namespace BS.Props.C16
+open BS BS.Search BS.StrainerParse
+
+/-- **parse-time = search-time.** For a strainer with no string criteria, at least one name or attribute criterion, and no function
+    among its NAME rules (the property's grammar is function-free; a name function is given a string at parse time and a `Tag` at
+    search time), and an element all of whose attributes are single strings (`raw` = what the parser handed over):
+    `allow_tag_creation(prefix, name, raw)` = `matches_tag(tag)`. Functions and regular expressions among the ATTRIBUTE rules are
+    allowed (they see the same strings both times). -/
+theorem allow_tag_creation_eq_matches_tag (O : Oracle) (v : Variant) (s : Strainer) (e : Elem) (raw : List (PStr × PStr))
+    (hs : s.stringRules = []) (hr : ¬(s.nameRules.isEmpty = true ∧ s.attrFlat.isEmpty = true))
+    (hfn : ∀ r ∈ s.nameRules, Rule.isFunction r = false)
+    (hattrs : e.attrs = raw.map (fun p => (p.1, AttrVal.one p.2))) :
+    allowTagCreation O s e.pfx e.name raw = (matchesTag O v s e).1 := by
+  have hget : ∀ a, rawGet raw a = getAttr e a := by
+    intro a; rw [rawGet_eq, getAttr, hattrs]
+  have hall : (s.attrFlat.all (fun p => attributeMatch O (rawGet raw p.1) (s.rulesFor p.1))) =
+      (s.attrFlat.all (fun p => attributeMatch O (getAttr e p.1) (s.rulesFor p.1))) := by
+    congr 1; funext p; rw [hget]
+  have hsr : stringRulesOK O s e = true := by simp [stringRulesOK, hs]
+  unfold allowTagCreation matchesTag
+  simp only [hs, List.isEmpty_nil, Bool.not_true, Bool.false_eq_true, if_false]
+  have hr' : (s.nameRules.isEmpty && s.attrFlat.isEmpty) = false := by
+    cases h1 : s.nameRules.isEmpty <;> cases h2 : s.attrFlat.isEmpty <;> simp_all
+  simp only [hr', Bool.false_eq_true, if_false]
+  rw [prefixed_eq, hall, hsr, Bool.and_true]
+  by_cases hne : s.nameRules.isEmpty = true
+  · -- no name rules: the shortcut cannot fire, the name test is skipped on both sides
+    have hsc : shortcutReject s e = false := by
+      unfold shortcutReject
+      have : s.nameRules = [] := by simpa using hne
+      simp [this]
+    simp [hne, hsc]
+  · have hne' : s.nameRules.isEmpty = false := by simpa using hne
+    have hnm := nameRulesEval_fst O v e s.nameRules hfn
+    by_cases hsc : shortcutReject s e = true
+    · -- one exact-name rule, no prefix, a different name: the loop says no as well
+      simp only [hsc, if_true, hne', Bool.not_false, Bool.true_and]
+      unfold shortcutReject at hsc
+      have hp : truthyPfx e.pfx = false := by
+        cases h : truthyPfx e.pfx <;> simp_all
+      have hpn : prefixedName e = none := by
+        unfold prefixedName; unfold truthyPfx at hp
+        cases h : e.pfx with
+        | none => rfl
+        | some l => cases l <;> simp_all
+      cases hnr : s.nameRules with
+      | nil => simp [hnr] at hne'
+      | cons r rs =>
+        cases rs with
+        | nil =>
+          cases r with
+          | string n =>
+            simp only [hnr, hp, Bool.not_false, Bool.true_and] at hsc
+            have : (e.name != n) = true := hsc
+            have hneq : ¬ e.name = n := by simpa using this
+            simp [nameLoop, pnMatch, hpn, Rule.matchesString, Rule.baseMatch, hneq]
+          | pattern i => simp [hnr] at hsc
+          | function i => simp [hnr] at hsc
+          | present b => simp [hnr] at hsc
+        | cons r2 rs2 => cases r <;> simp [hnr] at hsc
+    · have hsc' : shortcutReject s e = false := by simpa using hsc
+      simp only [hsc', Bool.false_eq_true, if_false, hne', Bool.not_false, Bool.true_and]
+      rw [← hnm]
+      cases hx : (nameRulesEval O v e s.nameRules).1 <;> simp
+
+/-- a strainer with name or attribute criteria refuses every string; one with only string criteria refuses every tag; one with both
+    refuses both — the three kinds of filter the property distinguishes, read off the code -/
+theorem tag_strainer_refuses_strings (O : Oracle) (s : Strainer) (str : PStr)
+    (hr : ¬(s.nameRules.isEmpty = true ∧ s.attrFlat.isEmpty = true)) : allowStringCreation O s str = false := by
+  unfold allowStringCreation
+  cases h1 : s.nameRules.isEmpty <;> cases h2 : s.attrFlat.isEmpty <;> simp_all
+
+theorem string_strainer_refuses_tags (O : Oracle) (s : Strainer) (pfx : Option PStr) (name : PStr) (raw : List (PStr × PStr))
+    (hs : s.stringRules ≠ []) : allowTagCreation O s pfx name raw = false := by
+  unfold allowTagCreation
+  have : s.stringRules.isEmpty = false := by cases h : s.stringRules <;> simp_all
+  simp [this]
+
+theorem string_strainer_keeps_matching_strings (O : Oracle) (s : Strainer) (str : PStr)
+    (hn : s.nameRules = []) (ha : s.attrFlat = []) (hs : s.stringRules ≠ []) :
+    allowStringCreation O s str = s.stringRules.any (fun r => r.matchesString O (some str)) := by
+  unfold allowStringCreation
+  have : s.stringRules.isEmpty = false := by cases h : s.stringRules <;> simp_all
+  simp [hn, ha, this]
+
+/-- non-vacuity: `SoupStrainer("a", id="x")` on `<a id="x" k="v">` -/
+def sAX : Strainer := mkStrainer { name := .atom (.str [97]), kwargs := [([105, 100], .atom (.str [120]))] }
+def O0 : Oracle := ⟨fun _ _ => false, fun _ _ => false, fun _ _ => false⟩
+def eAX : Elem := { id := 1, isTag := true, name := [97], pfx := none, attrs := [([105, 100], .one [120]), ([107], .one [118])], str := none }
+example : allowTagCreation O0 sAX eAX.pfx eAX.name [([105, 100], [120]), ([107], [118])] = true := by decide
+example : (matchesTag O0 Variant.repaired sAX eAX).1 = true := by decide
+example : allowTagCreation O0 sAX none [98] [([105, 100], [120])] = false := by decide
 
 end BS.Props.C16
